@@ -89,6 +89,8 @@ Definition ostep : fn -> fstate -> Z -> list argo -> ostep_result := ostep_gen h
    function ran on these values — placeholders stand where it did not look), or leaves it untouched because the function
    failed before touching its memory (EDrop x: the evaluation raises x), or puts the history outside the specification
    (EStop: FREEZE whose duration argument fails right after a detected change; SEQUENCE failing before it ever ran).
+   For FREEZE a dropped sample at expiry does write `_last_time_ms = 0`; that is invisible only while the times of the WHOLE
+   outcome history (dropped samples included) do not decrease — the case runner (Run.v check_spec) stops there.
    Hold laws, stated on this: while SAMPLE holds / FREEZE's timer runs the sample is kept WHATEVER the arguments do, so the
    output is the held value also when the input is unavailable or fails; and no argument is evaluated. *)
 Inductive effres := EKeep (s : sample) | EDrop (x : xout) | EStop.
